@@ -19,6 +19,9 @@ pub trait GAd: Send + Sync {
     fn deser(&self, bytes: &[u8], c: Compress, v: Validate, advertised: usize) -> P<DeOut>;
     /// x^e in the target field (plain `Field::pow`, checked by C02)
     fn pow(&self, raw: &[Vec<u64>], e: &UInt) -> Vec<Vec<u64>>;
+    /// containers of target-group elements (their validation goes through `Valid::batch_check`):
+    /// kind 0 = Vec<PairingOutput>, 1 = [PairingOutput; 2]; returns the number of elements on success
+    fn deser_container(&self, bytes: &[u8], kind: u8, c: Compress, v: Validate) -> P<Result<usize, String>>;
 }
 
 pub struct GA<E: Pairing>(String, FInfo, UInt, PhantomData<E>);
@@ -64,6 +67,15 @@ where
     fn pow(&self, raw: &[Vec<u64>], e: &UInt) -> Vec<Vec<u64>> {
         let x: E::TargetField = build(raw);
         unbuild(&x.pow(e.to_u64_digits()))
+    }
+    fn deser_container(&self, bytes: &[u8], kind: u8, c: Compress, v: Validate) -> P<Result<usize, String>> {
+        guard(|| {
+            let mut rd = CountingReader::new(bytes, bytes.len());
+            match kind {
+                0 => crate::api::de::<Vec<PairingOutput<E>>, _>(&mut rd, c, v).map(|x| x.len()).map_err(errs),
+                _ => crate::api::de::<[PairingOutput<E>; 2], _>(&mut rd, c, v).map(|x| x.len()).map_err(errs),
+            }
+        })
     }
 }
 
